@@ -1368,7 +1368,7 @@ func main() {
 	addJobs("rs-edge", run.N(4, 64), run.N(700, 8000))
 	addJobs("key-enc", run.N(4, 64), run.N(600, 8000))
 	addJobs("algebraic", run.N(2, 32), run.N(250, 4000))
-	addJobs("boundary", run.N(6, 64), run.N(12, 150)) // ~75 constructed cases per iteration
+	addJobs("boundary", run.N(4, 64), run.N(10, 150)) // ~75 constructed cases per iteration
 	addJobs("schnorr-valid", run.N(2, 32), run.N(300, 5000))
 	addJobs("schnorr-edge", run.N(4, 64), run.N(500, 8000))
 	addJobs("tweak", run.N(4, 64), run.N(700, 8000))
